@@ -1,6 +1,7 @@
 mod cli;
 mod codec;
 mod http;
+mod nu;
 mod durrun;
 mod procrun;
 mod sched;
